@@ -35,6 +35,10 @@ Inductive iop : Type :=
 | IXD (c : list N)
 | IRW (fa fb : option Z) (plan : list bool) (r : option (list (N * N * N * Z * string))) (c : list N)
       (* the stage driver with the datetime window (streamed files: linear search); r = None: it panicked *)
+| IRY (tabs : list (Z * list (string * Z))) (year : Z) (fa fb : option Z) (plan : list bool)
+      (r : option (list (N * N * N * Z * string)))
+      (* a log without years through SyslogProcessor (stages 1-3, process_missing_year) on a FRESH reader: tabs =
+         the oracle per candidate year, year = year of the modification time; instants in seconds (tol 25 h) *)
 | IPANIC (o : cop).
 
 (* block size, container (0 plain file, 1 gz / bz2 / lz4, 2 xz, 3 tar member), the bytes, the oracle table, the
@@ -56,6 +60,7 @@ Definition iop_cop (o : iop) : cop :=
   | IS fo _ _ => OS fo | ISB fo _ _ _ => OSB fo | ISE on _ => OSE on
   | IDD bo _ => ODD bo | IDS fo _ => ODS fo | IRD plan _ _ => ORD plan | IXD _ => OXD
   | IRW _ _ plan _ _ => ORD plan          (* not used: step_iop runs c_stream_win *)
+  | IRY _ _ _ _ plan _ => ORD plan        (* not used: step_iop runs c_stream_year *)
   | IPANIC o => o
   end.
 
@@ -171,13 +176,35 @@ Definition cmp_step (bs : N) (f : file) (st : cstate) (o : iop) (x : cres) : N :
            | Done => 1 | OutOfFuel => 2 | Panic => 4
            end) (eqlist (sc_list s) c)
   | IRW _ _ _ None _, _ => if cres_panicked x then 0 else 4
+  | IRY _ _ _ _ _ (Some r), RR m =>
+      match m with
+      | Found sls => if stream_agrees bs f (map ss_sysline sls) r then 0 else 1
+      | Done => 1 | OutOfFuel => 2 | Panic => 4
+      end
+  | IRY _ _ _ _ _ None, _ => if cres_panicked x then 0 else 4
   | IPANIC _, _ => if cres_panicked x then 0 else 4
   | _, _ => 2
+  end.
+
+Fixpoint zassoc {A} (k : Z) (l : list (Z * A)) : option A :=
+  match l with [] => None | (k', v) :: r => if (k =? k')%Z then Some v else zassoc k r end.
+
+(* the oracle with the year: the case's table for the filler year, the tables of the operation for the others *)
+Definition dated_years (dated : list N -> option Z) (tabs : list (Z * list (string * Z))) (y : option Z) (l : list N)
+  : option Z :=
+  match y with
+  | None => dated l
+  | Some y => match zassoc y tabs with Some t => dated_tab t l | None => None end
   end.
 
 (* one operation on the model: c_step, or the window driver on the SyslineReader *)
 Definition step_iop (dated : list N -> option Z) (bs : N) (f : file) (st : cstate) (o : iop) : cstate * cres :=
   match o with
+  | IRY tabs year fa fb plan _ =>
+      let dy := dated_years dated tabs in
+      (* a fresh SyslineReader: the case consists of this one operation, the block state is the one of open_kind *)
+      let s0 := c_gate (dy None) 2 2 bs f (sr_init_b (l_blk (fst st))) in
+      let '(s, r) := c_stream_year dy bs f 90000%Z year fa fb plan s0 in ((fst st, snd st), RR r)
   | IRW fa fb plan _ _ =>
       let '(s, r) := c_stream_win dated bs f fa fb plan (snd st) in ((fst st, s), RR r)
   | _ => c_step dated bs f st (iop_cop o)
